@@ -74,7 +74,9 @@ except Exception:
 _seeds = [d for d in sorted(glob.glob(os.path.join(ROOT, "seeded", "*"))) if os.path.exists(os.path.join(d, "meta.json"))]
 _missed = [os.path.basename(d) for d in _seeds if any(w in (NOTES.get(os.path.basename(d)) or json.load(open(os.path.join(d, "meta.json"))).get("caught_note") or "") for w in ("initially missed", "missed at first"))]
 _now = [os.path.basename(d) for d in _seeds if not json.load(open(os.path.join(d, "meta.json"))).get("maintainer_verification", {}).get("caught")]
-out.append("Totals: %d seeded changes kept (five rounds); %d of them were missed by the check as it stood when the seed arrived and led to a stronger generator, model or obligation (marked *initially missed* / *missed at first* below); not caught at the time of writing: %s.\n" % (len(_seeds), len(_missed), ", ".join(_now) if _now else "none"))
+import re as _re
+_rounds = max([1] + [int(m.group(1)) for d in _seeds for m in [_re.search(r"-r(\d+)-", os.path.basename(d))] if m])
+out.append("Totals: %d seeded changes kept (%d rounds); %d of them were missed by the check as it stood when the seed arrived and led to a stronger generator, model or obligation (marked *initially missed* / *missed at first* below); not caught at the time of writing: %s.\n" % (len(_seeds), _rounds, len(_missed), ", ".join(_now) if _now else "none"))
 out.append("| Seed | Property | What the change does | Needs | Caught by `./check <id> quick` |")
 out.append("|---|---|---|---|---|")
 for d in sorted(glob.glob(os.path.join(ROOT, "seeded", "*"))):
